@@ -115,6 +115,24 @@ func (r *dgRoles) deref(u dgUse, e ast.Expr) (dgUse, ast.Expr) {
 	return u, ast.Unparen(e)
 }
 
+// dgShared: the resolved roles and the enumerated diagnostic span uses, for
+// the rules that reason about where those spans come from.
+type dgShared struct {
+	r     *dgRoles
+	uses  []dgUse
+	order map[string]*spOrderFact
+}
+
+var dgSharedCache = map[*Ctx]*dgShared{}
+
+func dgSharedOf(c *Ctx) *dgShared {
+	if s := dgSharedCache[c]; s != nil {
+		return s
+	}
+	ruleDiagSpan(c)
+	return dgSharedCache[c]
+}
+
 func ruleDiagSpan(c *Ctx) []Obligation {
 	ep := c.Pkg("homescript/errors")
 	dp := c.Pkg("homescript/diagnostic")
@@ -253,6 +271,7 @@ func ruleDiagSpan(c *Ctx) []Obligation {
 	}
 	sort.SliceStable(uses, func(i, j int) bool { return uses[i].expr.Pos() < uses[j].expr.Pos() })
 	order := spanShapeAnalyse(c).order
+	dgSharedCache[c] = &dgShared{r: r, uses: uses, order: order}
 	var obs []Obligation
 	cnt := map[string]int{}
 	classes := map[string]int{}
